@@ -1060,6 +1060,7 @@ void ExtrapolatedSmootherGive::extrapolatedSmoothingForLoop(Vector<double>& x, c
         {
             #pragma omp for nowait
             for (int i_r = 0; i_r < grid_.numberSmootherCircles(); i_r++) {
+                VERIF_ITER(i_r);
                 for (int i_theta = 0; i_theta < grid_.ntheta(); i_theta++) {
                     const int index = grid_.index(i_r, i_theta);
                     temp[index]     = (i_r & 1 || i_theta & 1) ? rhs[index] : x[index];
@@ -1067,6 +1068,7 @@ void ExtrapolatedSmootherGive::extrapolatedSmoothingForLoop(Vector<double>& x, c
             }
             #pragma omp for
             for (int i_theta = 0; i_theta < grid_.ntheta(); i_theta++) {
+                VERIF_ITER(i_theta);
                 for (int i_r = grid_.numberSmootherCircles(); i_r < grid_.nr(); i_r++) {
                     const int index = grid_.index(i_r, i_theta);
                     temp[index]     = (i_r & 1 || i_theta & 1) ? rhs[index] : x[index];
@@ -1094,18 +1096,21 @@ void ExtrapolatedSmootherGive::extrapolatedSmoothingForLoop(Vector<double>& x, c
             /* Inside Black Section */
             #pragma omp for
             for (int circle_task = 0; circle_task < num_circle_tasks; circle_task += 2) {
+                VERIF_ITER(circle_task);
                 int i_r = num_circle_tasks - circle_task - 1;
                 applyAscOrthoCircleSection(i_r, SmootherColor::Black, x, rhs, temp);
             }
             /* Outside Black Section (Part 1)*/
             #pragma omp for
             for (int circle_task = -1; circle_task < num_circle_tasks; circle_task += 4) {
+                VERIF_ITER(circle_task);
                 int i_r = num_circle_tasks - circle_task - 1;
                 applyAscOrthoCircleSection(i_r, SmootherColor::Black, x, rhs, temp);
             }
             /* Outside Black Section (Part 2)*/
             #pragma omp for
             for (int circle_task = 1; circle_task < num_circle_tasks; circle_task += 4) {
+                VERIF_ITER(circle_task);
                 int i_r = num_circle_tasks - circle_task - 1;
                 applyAscOrthoCircleSection(i_r, SmootherColor::Black, x, rhs, temp);
             }
@@ -1113,6 +1118,7 @@ void ExtrapolatedSmootherGive::extrapolatedSmoothingForLoop(Vector<double>& x, c
             /* Black Circle Smoother */
             #pragma omp for
             for (int circle_task = 0; circle_task < num_circle_tasks; circle_task += 2) {
+                VERIF_ITER(circle_task);
                 int i_r = num_circle_tasks - circle_task - 1;
                 solveCircleSection(i_r, x, temp, circle_solver_storage_1, circle_solver_storage_2);
             }
@@ -1122,6 +1128,7 @@ void ExtrapolatedSmootherGive::extrapolatedSmoothingForLoop(Vector<double>& x, c
             /* Inside White Section */
             #pragma omp for nowait
             for (int circle_task = 1; circle_task < num_circle_tasks; circle_task += 2) {
+                VERIF_ITER(circle_task);
                 int i_r = num_circle_tasks - circle_task - 1;
                 applyAscOrthoCircleSection(i_r, SmootherColor::White, x, rhs, temp);
             }
@@ -1130,6 +1137,7 @@ void ExtrapolatedSmootherGive::extrapolatedSmoothingForLoop(Vector<double>& x, c
             /* Inside Black Section */
             #pragma omp for
             for (int radial_task = 0; radial_task < num_radial_tasks; radial_task += 2) {
+                VERIF_ITER(radial_task);
                 int i_theta = radial_task;
                 applyAscOrthoRadialSection(i_theta, SmootherColor::Black, x, rhs, temp);
             }
@@ -1139,6 +1147,7 @@ void ExtrapolatedSmootherGive::extrapolatedSmoothingForLoop(Vector<double>& x, c
             /* Outside White Section (Part 1)*/
             #pragma omp for nowait
             for (int circle_task = 0; circle_task < num_circle_tasks; circle_task += 4) {
+                VERIF_ITER(circle_task);
                 int i_r = num_circle_tasks - circle_task - 1;
                 applyAscOrthoCircleSection(i_r, SmootherColor::White, x, rhs, temp);
             }
@@ -1147,6 +1156,7 @@ void ExtrapolatedSmootherGive::extrapolatedSmoothingForLoop(Vector<double>& x, c
             /* Outside Black Section (Part 1) */
             #pragma omp for
             for (int radial_task = 1; radial_task < num_radial_tasks; radial_task += 4) {
+                VERIF_ITER(radial_task);
                 int i_theta = radial_task;
                 applyAscOrthoRadialSection(i_theta, SmootherColor::Black, x, rhs, temp);
             }
@@ -1156,6 +1166,7 @@ void ExtrapolatedSmootherGive::extrapolatedSmoothingForLoop(Vector<double>& x, c
             /* Outside White Section (Part 2)*/
             #pragma omp for nowait
             for (int circle_task = 2; circle_task < num_circle_tasks; circle_task += 4) {
+                VERIF_ITER(circle_task);
                 int i_r = num_circle_tasks - circle_task - 1;
                 applyAscOrthoCircleSection(i_r, SmootherColor::White, x, rhs, temp);
             }
@@ -1164,6 +1175,7 @@ void ExtrapolatedSmootherGive::extrapolatedSmoothingForLoop(Vector<double>& x, c
             /* Outside Black Section (Part 2) */
             #pragma omp for
             for (int radial_task = 3; radial_task < num_radial_tasks; radial_task += 4) {
+                VERIF_ITER(radial_task);
                 int i_theta = radial_task;
                 applyAscOrthoRadialSection(i_theta, SmootherColor::Black, x, rhs, temp);
             }
@@ -1171,12 +1183,14 @@ void ExtrapolatedSmootherGive::extrapolatedSmoothingForLoop(Vector<double>& x, c
             /* White Circle Smoother */
             #pragma omp for nowait
             for (int circle_task = 1; circle_task < num_circle_tasks; circle_task += 2) {
+                VERIF_ITER(circle_task);
                 int i_r = num_circle_tasks - circle_task - 1;
                 solveCircleSection(i_r, x, temp, circle_solver_storage_1, circle_solver_storage_2);
             }
             /* Black Radial Smoother */
             #pragma omp for
             for (int radial_task = 0; radial_task < num_radial_tasks; radial_task += 2) {
+                VERIF_ITER(radial_task);
                 int i_theta = radial_task;
                 solveRadialSection(i_theta, x, temp, radial_solver_storage);
             }
@@ -1187,18 +1201,21 @@ void ExtrapolatedSmootherGive::extrapolatedSmoothingForLoop(Vector<double>& x, c
             /* Inside White Section */
             #pragma omp for
             for (int radial_task = 1; radial_task < num_radial_tasks; radial_task += 2) {
+                VERIF_ITER(radial_task);
                 int i_theta = radial_task;
                 applyAscOrthoRadialSection(i_theta, SmootherColor::White, x, rhs, temp);
             }
             /* Outside White Section (Part 1) */
             #pragma omp for
             for (int radial_task = 0; radial_task < num_radial_tasks; radial_task += 4) {
+                VERIF_ITER(radial_task);
                 int i_theta = radial_task;
                 applyAscOrthoRadialSection(i_theta, SmootherColor::White, x, rhs, temp);
             }
             /* Outside White Section (Part 2) */
             #pragma omp for
             for (int radial_task = 2; radial_task < num_radial_tasks; radial_task += 4) {
+                VERIF_ITER(radial_task);
                 int i_theta = radial_task;
                 applyAscOrthoRadialSection(i_theta, SmootherColor::White, x, rhs, temp);
             }
@@ -1206,6 +1223,7 @@ void ExtrapolatedSmootherGive::extrapolatedSmoothingForLoop(Vector<double>& x, c
             /* White Radial Smoother */
             #pragma omp for
             for (int radial_task = 1; radial_task < num_radial_tasks; radial_task += 2) {
+                VERIF_ITER(radial_task);
                 int i_theta = radial_task;
                 solveRadialSection(i_theta, x, temp, radial_solver_storage);
             }
